@@ -373,12 +373,6 @@ def _to_c_expr(
             return None
         if isinstance(node, (ast.Tuple, ast.List)):
             return len(node.elts)
-        if isinstance(node, ast.Name) and isinstance(env, dict):
-            bound = env.get(node.id)
-            if isinstance(bound, _ExprStr):
-                return None
-            if isinstance(bound, (str, tuple, list)):
-                return len(bound)
         return None
 
     def _render_pin_argument(node: ast.AST) -> str:
